@@ -98,8 +98,26 @@ func (s script) String() string {
 }
 
 type step struct {
-	Op string `json:"op"` // "add" | "wp" | "rewp"
-	Tx int    `json:"tx"`
+	// Op: "add" | "wp" | "rewp" | "rej" (an offer that must not lead to admission) | "dup" (an admitted transaction is offered again)
+	Op string `json:"op"`
+	Tx int    `json:"tx"` // index into Txs; for rej kinds that offer an inadmissible transaction: index into Rej
+	// Kind of a "rej" step.
+	//   inadmissible by construction (Tx -> Rej): second-root | unknown-prev | bad-signature | wrong-lc
+	//   an admissible transaction of Txs offered in a way that cannot succeed, before its regular add step:
+	//     prev-later (a prev is not there yet) | payload-mismatch (other bytes than the payload hash) |
+	//     ctx-cancel (the caller's context ends inside the admission write) | store-fault (N-th store op of the admission write fails, 0 = commit refused)
+	//     wp-store-fault (same for the WritePayload of a late payload)
+	Kind string `json:"kind,omitempty"`
+	N    int    `json:"n,omitempty"`
+}
+
+// rejSpec is a well-formed transaction that the DAG must refuse (reference decision by construction, see step.Kind).
+type rejSpec struct {
+	Kind    string `json:"kind"`
+	Data    string `json:"data"`
+	Ref     string `json:"ref"`
+	PType   string `json:"ptype"`
+	Payload []byte `json:"payload"` // nil: offered without payload
 }
 
 type crashPlan struct {
@@ -115,6 +133,7 @@ type crashPlan struct {
 type scenario struct {
 	Index    int               `json:"index"`
 	Txs      []txSpec          `json:"txs"`
+	Rej      []rejSpec         `json:"rej"`
 	Subs     []subSpec         `json:"subs"`
 	Steps    []step            `json:"steps"`
 	Scripts  map[string]script `json:"scripts"` // "sub|txIndex|type"
@@ -159,8 +178,75 @@ func filterFn(filter string) dag.NotificationFilter {
 	}
 }
 
+// nz keeps a ledger field non-empty (fields are separated by blanks).
+func nz(s string) string {
+	if strings.TrimSpace(s) == "" {
+		return "-"
+	}
+	return strings.ReplaceAll(s, " ", "_")
+}
+
 func ledgerPath(dir string, phase int) string {
 	return filepath.Join(dir, "ledger."+strconv.Itoa(phase))
+}
+
+// ---- ledger reading ---------------------------------------------------------------------------------------------
+//
+// A worker appends one line per write call and is SIGKILLed at arbitrary moments, also while another of its goroutines is inside such a
+// call: a line that straddles a page boundary of the file is copied in two steps and can be cut short. What was not written completely
+// counts as not written (the line is written BEFORE the action it announces): a tail without line end is dropped, and so is every line
+// that does not have the shape of its kind (number of fields, numeric fields). Nothing after this point indexes a line beyond that shape.
+
+type lineShape struct {
+	n    int   // minimal number of fields, the tag included
+	ints []int // fields that must be integers
+}
+
+var lineShapes = map[string]lineShape{
+	"kill": {n: 2}, "committed": {n: 3}, "wp-committed": {n: 2}, "ret": {n: 6}, "recorded": {n: 5, ints: []int{4}},
+	"finish-failed": {n: 3}, "finished": {n: 3}, "finished-observed": {n: 3}, "fin-ext": {n: 5}, "fin-err": {n: 2},
+	"start-dag": {n: 3}, "start-shelf": {n: 5, ints: []int{4}}, "end-shelf": {n: 5, ints: []int{4}},
+	"run-begin": {n: 2}, "run-err": {n: 2}, "run-done": {n: 2},
+	"add-begin": {n: 4, ints: []int{2}}, "add-err": {n: 2}, "add-ok": {n: 2},
+	"wp-skip": {n: 2}, "wp-begin": {n: 2}, "wp-err": {n: 2}, "wp-ok": {n: 2}, "step-ok": {n: 2, ints: []int{1}},
+	"recv":      {n: 7, ints: []int{4, 6}},
+	"rej-begin": {n: 6, ints: []int{2, 5}}, "rej-end": {n: 4}, "dup-begin": {n: 6, ints: []int{2, 5}}, "dup-end": {n: 4}, "rej-skip": {n: 2},
+}
+
+// readLedgerLines returns the fields of the completely written, well-shaped lines of a ledger and the number of lines it dropped.
+func readLedgerLines(path string) (lines [][]string, dropped int) {
+	raw, err := os.ReadFile(path)
+	if err != nil {
+		return nil, 0
+	}
+	text := string(raw)
+	if i := strings.LastIndexByte(text, '\n'); i < len(text)-1 {
+		if strings.TrimSpace(text[i+1:]) != "" {
+			dropped++ // torn tail
+		}
+		text = text[:i+1]
+	}
+next:
+	for _, ln := range strings.Split(text, "\n") {
+		f := strings.Fields(ln)
+		if len(f) == 0 {
+			continue
+		}
+		if shape, ok := lineShapes[f[0]]; ok {
+			if len(f) < shape.n {
+				dropped++
+				continue
+			}
+			for _, i := range shape.ints {
+				if _, err := strconv.Atoi(f[i]); err != nil {
+					dropped++
+					continue next
+				}
+			}
+		}
+		lines = append(lines, f)
+	}
+	return lines, dropped
 }
 
 // ---- worker ---------------------------------------------------------------------------------------------------
@@ -227,6 +313,15 @@ func phaseWorker(args []string) int {
 		txs[i] = tx
 		idxOf[tx.Ref().String()] = i
 	}
+	rejTxs := make([]dag.Transaction, len(sc.Rej))
+	for i, t := range sc.Rej {
+		tx, err := dag.ParseTransaction([]byte(t.Data))
+		if err != nil {
+			fmt.Println("rej tx:", err)
+			return 3
+		}
+		rejTxs[i] = tx
+	}
 	// what earlier phases did: attempts per (sub, ref, type) continue the receiver scripts; completed steps are not repeated
 	var mu sync.Mutex
 	attempts := map[string]int{}
@@ -240,11 +335,8 @@ func phaseWorker(args []string) int {
 		payloadCount[string(t.Payload)]++
 	}
 	for p := 0; p < phase; p++ {
-		for _, ln := range worker.ReadLedger(ledgerPath(dir, p)) {
-			f := strings.Fields(ln)
-			if len(f) == 0 {
-				continue
-			}
+		prev, _ := readLedgerLines(ledgerPath(dir, p))
+		for _, f := range prev {
 			switch f[0] {
 			case "recv":
 				if len(f) >= 4 {
@@ -315,6 +407,25 @@ func phaseWorker(args []string) int {
 
 	// receivers
 	notifiers := map[string]dag.Notifier{}
+	pendingFin := map[string]string{} // sub|ref|type -> "ret" | "rec": record the completion externally at that hook of the running attempt
+	finishExternally := func(sub string, h hash.SHA256Hash, typ, where string) {
+		led.Log("fin-ext %s %s %s %s", sub, h, typ, where)
+		mu.Lock()
+		n := notifiers[sub]
+		mu.Unlock()
+		if err := n.Finished(h); err != nil {
+			led.Log("fin-err %s %s", h, strings.ReplaceAll(err.Error(), " ", "_"))
+		}
+	}
+	takePendingFin := func(sub, ref, typ, at string) bool {
+		mu.Lock()
+		defer mu.Unlock()
+		if pendingFin[sub+"|"+ref+"|"+typ] == at {
+			delete(pendingFin, sub+"|"+ref+"|"+typ)
+			return true
+		}
+		return false
+	}
 	mkReceiver := func(s subSpec) dag.ReceiverFn {
 		return func(e dag.Event) (bool, error) {
 			ref := e.Hash.String()
@@ -330,8 +441,33 @@ func phaseWorker(args []string) int {
 			} else {
 				res = "unknown-ref"
 			}
-			led.Log("recv %s %s %s %d %s %d", s.Name, ref, e.Type, a+1, res, e.Retries)
-			switch res {
+			led.Log("recv %s %s %s %d %s %d", s.Name, ref, nz(e.Type), a+1, nz(res), e.Retries)
+			wp, fin, base := decodeResult(res)
+			if wp {
+				// the private-transaction receiver obtained the payload and writes it (as v2 handleTransactionPayload does), unless it is there already
+				i := idxOf[ref]
+				if payloadWritten(i) {
+					return true, nil
+				}
+				led.Log("wp-begin %s nested", ref)
+				if err := st.WritePayload(ctx, e.Transaction, e.Transaction.PayloadHash(), sc.Txs[i].Payload); err != nil {
+					led.Log("wp-err %s %s", ref, strings.ReplaceAll(err.Error(), " ", "_"))
+					return false, err
+				}
+				led.Log("wp-ok %s nested", ref)
+			}
+			switch fin {
+			case "in":
+				// the completion of this event is recorded by another party while the receiver is busy (v2 handleTransactionPayload marks the
+				// private-transaction job finished when the answer to the query arrives; Network.CleanupSubscriberEvents): whatever the receiver
+				// returns afterwards, the event is completed
+				finishExternally(s.Name, e.Hash, e.Type, "during-receiver")
+			case "ret", "rec":
+				mu.Lock()
+				pendingFin[key] = fin
+				mu.Unlock()
+			}
+			switch base {
 			case "ok":
 				return true, nil
 			case "fail":
@@ -348,38 +484,6 @@ func phaseWorker(args []string) int {
 			case "slow-fail":
 				time.Sleep(25 * time.Millisecond)
 				return false, errors.New("scripted slow failure")
-			case "wp-ok":
-				// the private-transaction receiver obtained the payload and writes it (as v2 handleTransactionPayload does), unless it is there already
-				i := idxOf[ref]
-				if !payloadWritten(i) {
-					led.Log("wp-begin %s nested", ref)
-					if err := st.WritePayload(ctx, e.Transaction, e.Transaction.PayloadHash(), sc.Txs[i].Payload); err != nil {
-						led.Log("wp-err %s %s", ref, strings.ReplaceAll(err.Error(), " ", "_"))
-						return false, err
-					}
-					led.Log("wp-ok %s nested", ref)
-				}
-				return true, nil
-			case "wp-fin":
-				// the query went out and the answer was handled before the receiver returned: v2 handleTransactionPayload writes the
-				// payload and marks the private-transaction job finished itself; the receiver reports "sent, not done yet"
-				i := idxOf[ref]
-				if payloadWritten(i) {
-					return true, nil
-				}
-				led.Log("wp-begin %s nested", ref)
-				if err := st.WritePayload(ctx, e.Transaction, e.Transaction.PayloadHash(), sc.Txs[i].Payload); err != nil {
-					led.Log("wp-err %s %s", ref, strings.ReplaceAll(err.Error(), " ", "_"))
-					return false, err
-				}
-				led.Log("wp-ok %s nested", ref)
-				mu.Lock()
-				n := notifiers[s.Name]
-				mu.Unlock()
-				if err := n.Finished(e.Hash); err != nil {
-					led.Log("fin-err %s %s", ref, strings.ReplaceAll(err.Error(), " ", "_"))
-				}
-				return false, nil
 			}
 			return true, nil
 		}
@@ -405,11 +509,40 @@ func phaseWorker(args []string) int {
 	// hooks: ledger lines for what the notifier does + the crash plan
 	var inTarget, stopping atomic.Bool
 	var occ atomic.Int32
+	// an offer that must be refused / a repeated offer is under way: the crash plan does not aim at its hook points, the fault of the step does
+	var inRej, rejFired atomic.Bool
+	var rejRef, rejKind atomic.Value // string
+	var rejN atomic.Int32
+	var rejCancel atomic.Value // context.CancelFunc
+	rejRef.Store("")
+	rejKind.Store("")
+	rejFault := func(ref string, kinds ...string) {
+		if rejRef.Load().(string) != ref {
+			return
+		}
+		for _, k := range kinds {
+			if rejKind.Load().(string) != k {
+				continue
+			}
+			switch k {
+			case "ctx-cancel":
+				rejCancel.Load().(context.CancelFunc)()
+				rejFired.Store(true)
+			case "store-fault", "wp-store-fault":
+				n := int(rejN.Load())
+				fs.ArmActive(&faultstore.Plan{FailOp: n, FailAtEnd: n == 0})
+			}
+		}
+	}
 	hit := func() bool { return int(occ.Add(1)) == max(plan.Occ, 1) }
 	rec := &sched.Recorder{OnHook: func(name string, a []any) error {
 		switch name {
 		case "dag.add.inwrite":
 			ref := a[0].(hash.SHA256Hash).String()
+			if inRej.Load() {
+				rejFault(ref, "ctx-cancel", "store-fault")
+				break
+			}
 			if plan.Point == "inwrite" && matchRef(ref) {
 				if plan.Op == 0 {
 					kill("inwrite " + ref + " at-hook")
@@ -419,11 +552,15 @@ func phaseWorker(args []string) int {
 		case "dag.add.committed":
 			ref := a[0].(hash.SHA256Hash).String()
 			led.Log("committed %s %v", ref, a[1])
-			if plan.Point == "committed" && matchRef(ref) && a[1].(bool) {
+			if plan.Point == "committed" && matchRef(ref) && a[1].(bool) && !inRej.Load() {
 				kill("committed " + ref)
 			}
 		case "dag.payload.inwrite":
 			ref := a[0].(hash.SHA256Hash).String()
+			if inRej.Load() && rejRef.Load().(string) == ref {
+				rejFault(ref, "wp-store-fault")
+				break
+			}
 			if plan.Point == "wp-inwrite" && matchRef(ref) {
 				kill("wp-inwrite " + ref)
 			}
@@ -446,12 +583,20 @@ func phaseWorker(args []string) int {
 				}
 			}
 			led.Log("ret %s %s %s %v %s", sub, ref, typ, a[3], e)
+			if takePendingFin(sub, ref, typ, "ret") {
+				// the completion is recorded by another party after the receiver returned, before the notifier has recorded the outcome
+				finishExternally(sub, a[1].(hash.SHA256Hash), typ, "after-return")
+			}
 			if plan.Point == "returned" && matchSub(sub) && matchRef(ref) && hit() {
 				kill("returned " + sub + " " + ref)
 			}
 		case "dag.notify.recorded":
 			sub, ref, typ := a[0].(string), a[1].(hash.SHA256Hash).String(), a[2].(string)
 			led.Log("recorded %s %s %s %d", sub, ref, typ, a[3].(int))
+			if takePendingFin(sub, ref, typ, "rec") {
+				// ... after the failed attempt was recorded, before the next one (start of the back-off; clean-up of a failed event)
+				finishExternally(sub, a[1].(hash.SHA256Hash), typ, "after-record")
+			}
 			if plan.Point == "recorded" && matchSub(sub) && matchRef(ref) && hit() {
 				kill("recorded " + sub + " " + ref)
 			}
@@ -524,7 +669,7 @@ func phaseWorker(args []string) int {
 			}
 			sort.Strings(keys)
 			for _, k := range keys {
-				led.Log("%s %s %s %s %d", tag, s.Name, k, sh[k].Type, sh[k].Retries)
+				led.Log("%s %s %s %s %d", tag, s.Name, k, nz(sh[k].Type), sh[k].Retries)
 			}
 		}
 	}
@@ -549,6 +694,61 @@ func phaseWorker(args []string) int {
 			}
 			if stopping.Load() {
 				break
+			}
+			if s.Op == "rej" || s.Op == "dup" {
+				// an offer that must not lead to admission (reference decision: by construction of the input / by the injected fault, see step.Kind),
+				// or a repeated offer of an admitted transaction. Whatever the call returns, the run carries on; the oracle looks at the deliveries.
+				var tx dag.Transaction
+				var payload []byte
+				switch s.Kind {
+				case "second-root", "unknown-prev", "bad-signature", "wrong-lc":
+					tx, payload = rejTxs[s.Tx], sc.Rej[s.Tx].Payload
+				default:
+					tx = txs[s.Tx]
+					if sc.Txs[s.Tx].Mode == "with" || s.Op == "dup" && !sc.Txs[s.Tx].Private {
+						payload = sc.Txs[s.Tx].Payload
+					}
+					if s.Kind == "payload-mismatch" {
+						payload = append(append([]byte{}, sc.Txs[s.Tx].Payload...), 'x')
+					}
+				}
+				ref := tx.Ref().String()
+				if s.Kind == "wp-store-fault" {
+					if present, _ := st.IsPresent(ctx, tx.Ref()); !present || payloadWritten(s.Tx) {
+						led.Log("rej-skip %s %d %s", ref, i, s.Kind)
+						led.Log("step-ok %d", i)
+						continue
+					}
+				}
+				kind := s.Kind
+				if s.Op == "dup" {
+					kind = "dup"
+				}
+				faults := fs.Faults
+				cctx, cancel := context.WithCancel(ctx)
+				rejFired.Store(false)
+				rejRef.Store(ref)
+				rejKind.Store(s.Kind)
+				rejN.Store(int32(s.N))
+				rejCancel.Store(cancel)
+				led.Log("%s-begin %s %d %s %v %d", s.Op, ref, i, kind, payload != nil, s.N)
+				inRej.Store(true)
+				var err error
+				if s.Kind == "wp-store-fault" {
+					err = st.WritePayload(cctx, tx, tx.PayloadHash(), sc.Txs[s.Tx].Payload)
+				} else {
+					err = st.Add(cctx, tx, payload)
+				}
+				inRej.Store(false)
+				rejRef.Store("")
+				cancel()
+				e := "nil"
+				if err != nil {
+					e = strings.ReplaceAll(err.Error(), " ", "_")
+				}
+				led.Log("%s-end %s %s %v", s.Op, ref, e, rejFired.Load() || fs.Faults > faults)
+				led.Log("step-ok %d", i)
+				continue
 			}
 			tx := txs[s.Tx]
 			spec := sc.Txs[s.Tx]
@@ -991,6 +1191,7 @@ type caseResult struct {
 	reached  bool
 	broken   string
 	note     string
+	dropped  int // ledger lines that were not written completely (torn by the SIGKILL)
 }
 
 func runCase(sc *scenario, name string) *caseResult {
@@ -1031,8 +1232,10 @@ func runCase(sc *scenario, name string) *caseResult {
 			end = "broken"
 			res.broken = fmt.Sprintf("phase %d exit %d: %s", p, wr.ExitCode, tail(wr.Output))
 		}
-		for i, ln := range worker.ReadLedger(ledgerPath(dir, p)) {
-			if f := strings.Fields(ln); len(f) > 0 {
+		lns, dropped := readLedgerLines(ledgerPath(dir, p))
+		res.dropped += dropped
+		for i, f := range lns {
+			{
 				res.lines = append(res.lines, line{p, i, f})
 				if f[0] == "crash-not-reached" {
 					res.reached = false
